@@ -809,7 +809,7 @@ fn fence_case(kind: u8, active: usize) {
 }
 
 vharness! {
-    /// @prop C02,C03,C04 @tier thorough @mode fast @cost 4 @timeout 5400 @funcs rt::fence,rt::synchronize,atomic::fence_acq,atomic::State::stores_mut,FirstSeen::is_seen_by_current,Synchronize::sync_load @bounds 1 atomic with a ring of 2 live stores, symbolic clocks over 3 threads, fencing thread 1, unwind 6
+    /// @prop C02,C03,C04 @tier quick @mode fast @cost 3 @timeout 3600 @funcs rt::fence,rt::synchronize,atomic::fence_acq,atomic::State::stores_mut,FirstSeen::is_seen_by_current,Synchronize::sync_load @bounds 1 atomic with a ring of 2 live stores, symbolic clocks over 3 threads, fencing thread 1, unwind 6
     /// fence(Acquire) joins into the fencing thread exactly the release views of the stores that this thread itself read (no more: C02, no less: C03) and changes nothing else.
     #[cfg_attr(kani, kani::unwind(6))]
     fn fence_acquire_exact_t1() { fence_case(0, 1) }
@@ -823,14 +823,14 @@ vharness! {
 }
 
 vharness! {
-    /// @prop C02,C03,C04 @tier thorough @mode fast @cost 4 @timeout 5400 @funcs rt::fence,atomic::fence_acqrel,atomic::fence_acq,atomic::fence_rel @bounds as fence_acquire_exact_t1, fencing thread 2
+    /// @prop C02,C03,C04 @tier quick @mode fast @cost 3 @timeout 3600 @funcs rt::fence,atomic::fence_acqrel,atomic::fence_acq,atomic::fence_rel @bounds as fence_acquire_exact_t1, fencing thread 2
     /// fence(AcqRel): the released view includes everything the acquire half picked up.
     #[cfg_attr(kani, kani::unwind(6))]
     fn fence_acqrel_exact_t2() { fence_case(2, 2) }
 }
 
 vharness! {
-    /// @prop C02,C03,C04 @tier thorough @mode fast @cost 4 @timeout 5400 @funcs rt::fence,atomic::fence_seqcst,Set::seq_cst_fence @bounds as fence_acquire_exact_t1, fencing thread 1
+    /// @prop C02,C03,C04 @tier quick @mode fast @cost 3 @timeout 3600 @funcs rt::fence,atomic::fence_seqcst,Set::seq_cst_fence @bounds as fence_acquire_exact_t1, fencing thread 1
     /// fence(SeqCst): acquire + release halves plus a two-way join with the global SC-fence view (total order of SC fences).
     #[cfg_attr(kani, kani::unwind(6))]
     fn fence_seqcst_exact_t1() { fence_case(3, 1) }
